@@ -46,3 +46,5 @@ package majority
 //@   at call go#1: ghost nstarted = nstarted + 1
 //@   loop 1
 //@     invariant nstarted == nvisited()
+//@   // C07: the nodes are given until the strategy's own (hard) timeout to answer, not only until its soft timeout
+//@   at call go#1: assert arg1 == hardCtx
